@@ -790,8 +790,33 @@ def history_case(ctx, seed):
             return got
         return got if got == diff_live(a, b) else [("same-objects-second-diff-differs", 0, "")]
 
+    def flow_inplace_replacing_visitor():
+        # as above with the base SchemaVisitor, which REPLACES the edited type object inside the same Schema
+        from py_gql.schema import SchemaVisitor
+
+        class DropField(SchemaVisitor):
+            current = None
+
+            def on_object(self, object_type):
+                self.current = object_type.name
+                return super().on_object(object_type)
+
+            def on_interface(self, interface_type):
+                self.current = interface_type.name
+                return super().on_interface(interface_type)
+
+            def on_field(self, field):
+                if self.current == t["name"] and field.name == victim:
+                    return None
+                return super().on_field(field)
+        a, b = build_schema(gs.to_sdl(d)), build_schema(gs.to_sdl(d))
+        first = diff_live(a, b)
+        if first:
+            return first
+        return diff_live(a, DropField().on_schema(b))
+
     for name, fl in (("diff-then-edit", flow_diff_then_edit), ("use-clone-edit", flow_use_clone_edit), ("visibility-transform", flow_transform),
-                     ("diff-then-inplace-visitor", flow_inplace_visitor)):
+                     ("diff-then-inplace-visitor", flow_inplace_visitor), ("diff-then-inplace-replacing-visitor", flow_inplace_replacing_visitor)):
         try:
             got = fl()
         except Exception as e:  # noqa
